@@ -94,7 +94,11 @@ def register(R, tier="quick"):
         return out
     def qfn01(tier_, seed):
         out = dict(qfn(tier_, seed))
-        out["failures"] = [f for f in out.get("failures", []) if not f["case"].startswith("C11-")]
+        out["failures"] = [f for f in out.get("failures", []) if not f["case"].startswith("C11-") and not f["case"].startswith("C15-")]
+        return out
+    def qfn15(tier_, seed):
+        out = dict(qfn(tier_, seed))
+        out["failures"] = [f for f in out.get("failures", []) if f["case"].startswith("C15-")]
         return out
     def qfn11(tier_, seed):
         out = dict(qfn(tier_, seed))
@@ -115,6 +119,10 @@ def register(R, tier="quick"):
                           "values one day apart): open, closed and half-open intervals with bounds on and between stored values, over "
                           "1-3 segments with deletions, every access path",
                     note="index-level counterpart of the range-splitting proofs: which documents a range query returns")
+    R.bounded_check("queries-bounded@C15", ["C15"], qfn15,
+                    bound="every generated query of queries-bounded (Phrase, span queries, And with a span clause, Prefix, Wildcard, "
+                          "Regex, TermRange, NumericRange, DateRange, Every) on corpora of <= 8 docs, 1-3 segments, 0-1 deletion",
+                    note="estimate_size() never raises and is never below the number of documents the query matches")
     R.bounded_check("queries-bounded@C11", ["C11"], qfn11,
                     bound="the matcher of every generated query of queries-bounded (Phrase, span-near, Prefix, Wildcard, Regex, "
                           "TermRange, NumericRange, DateRange, Every; corpora of <= 8 docs, 1-3 segments, 0-1 deletion): stepping, "
